@@ -5,17 +5,19 @@
      levels_sound         intra-group ancestors are computed by strictly earlier steps of the plan; no fallback
      plan_uuids           the produced sets partition the features of the graph
      plan_facts           the propositional content of wf_plan except acyclicity of the wait-for relation
-     plan_wf              group_dag g -> wf_plan (explicit order) (plan_of ord g) = true
-     plan_wf_refuted      without group_dag the plan can be cyclic (a strict-fragment request that deadlocks)
+     prepare_outcome      add_tfs adds nothing, the produced-check passes: Planned / RejectedCycle by the run simulation
+     prepare_accepts_iff  accepted exactly when the unvalidated plan is well formed for some order
+     plan_wf              every accepted plan is well formed (explicit order: the simulation's start order)
+     prepare_accepts_dag  group_dag g -> accepted (plan_wf_rank gives an explicit order from a rank)
+     plan_wf_refuted      the unvalidated plan can be cyclic: why the validation of /repo 12fe10c is needed
      plan_req_covers      req_covers (plan_of ord g) (adj g) = true
-     prepare_accepts      add_tfs adds nothing, the validation passes
      plan_deterministic   any two orders give the same plan up to permutation of steps / of the lists inside them
      requests_terminate   composition with terminates_sync and start_requires *)
 From Coq Require Import List Bool Arith Lia Permutation.
 Import ListNotations.
 Require Import MV.Model.Orch MV.Model.OrchCheck MV.Model.Grouping MV.Model.PlannerA MV.Spec.PlannerASpec.
 Require Import MV.Proofs.OrchP MV.Proofs.OrchTermP MV.Proofs.PlannerASets MV.Proofs.PlannerAGraph.
-Require Import MV.Proofs.PlannerAQueue MV.Proofs.PlannerALevels MV.Proofs.PlannerAOrder.
+Require Import MV.Proofs.PlannerAQueue MV.Proofs.PlannerALevels MV.Proofs.PlannerAOrder MV.Proofs.PlanSimP.
 
 (* the dependency levels of feature group k *)
 Definition glevels (ord : oparam) (g : fgraph) (k : nat) : list (list nat) :=
@@ -269,8 +271,44 @@ Section Plan.
     destruct Hlv as [Hlv|[]]. subst lv. destruct (glevels_spec e He) as (S1 & _). rewrite S1 in Hfb. discriminate.
   Qed.
 
-  (* ---------- add_tfs adds nothing; the validation passes ---------- *)
-  Theorem prepare_accepts : prepare_A ord g = Planned (plan_of ord g).
+  (* ---------- add_tfs adds nothing; the produced-check passes; the run simulation decides ---------- *)
+  Lemma level_same : forall e lvl x y, In e PQ -> In lvl (glevels ord g (fst e)) -> In x lvl -> In y lvl ->
+    grp_of g x = grp_of g y /\ lidx (glevels ord g (fst e)) x = lidx (glevels ord g (fst e)) y.
+  Proof.
+    intros e lvl x y He Hl Hx Hy. destruct (pq_entry e He) as (E & _ & _ & Hnd). destruct (glevels_spec e He) as (_ & S2 & _).
+    assert (Hg : forall z, In z lvl -> grp_of g z = fst e).
+    { intros z Hz. pose proof (level_in_group e lvl z He Hl Hz) as H. rewrite E in H. apply members_spec in H. apply H. }
+    assert (Hndc : NoDup (concat (glevels ord g (fst e)))) by (apply (Permutation_NoDup (Permutation_sym S2)); exact Hnd).
+    destruct (In_nth_error _ _ Hl) as [k Hk]. rewrite (Hg x Hx), (Hg y Hy).
+    rewrite (lidx_nth _ k lvl x Hndc Hk Hx), (lidx_nth _ k lvl y Hndc Hk Hy). split; reflexivity.
+  Qed.
+
+  Theorem plan_struct : wf_struct (plan_of ord g) = true.
+  Proof.
+    destruct plan_facts as (F1 & F2 & F3 & _ & F5 & _). unfold wf_struct. repeat (apply andb_true_iff; split).
+    - apply forallb_forall. intros s Hs. destruct (F2 s Hs) as [Hne _]. destruct (uuids s); [congruence | reflexivity].
+    - apply NoDup_nodupb. exact F1.
+    - apply NoDup_nodupb. exact F3.
+    - apply forallb_forall. intros s Hs. apply forallb_forall. intros u Hu. apply mem_In. exact (F5 s u Hs Hu).
+  Qed.
+
+  (* no step requires one of its own features: two features of one step are never ancestor and descendant *)
+  Theorem plan_no_self_req : no_self_req (plan_of ord g) = true.
+  Proof.
+    unfold no_self_req. apply forallb_forall. intros s Hs. apply disjoint_spec. intros a Ha Hau.
+    destruct (in_plan s Hs) as (j & e & lvl & _ & Es & He & Hl). subst s. rewrite req_set_sid in Ha. rewrite uuids_set_sid in Hau.
+    apply in_req_step in Ha. destruct Ha as [u [Hu Hanc]]. apply (proj1 (in_uuids_step lvl a)) in Hau.
+    destruct (level_same e lvl a u He Hl Hau Hu) as [Eg El].
+    destruct Hok as (_ & Hcl & _). destruct (anc_ids g Hcl a u Hanc) as [Hai Hui].
+    destruct (same_group_levels a u Hai Hui Eg Hanc) as (e' & He' & Ek' & _ & _ & Hlt).
+    assert (Ee : fst e' = fst e).
+    { rewrite Ek'. pose proof (level_in_group e lvl u He Hl Hu) as H. destruct (pq_entry e He) as (E & _). rewrite E in H.
+      apply members_spec in H. apply H. }
+    rewrite Ee in Hlt. lia.
+  Qed.
+
+  Theorem prepare_outcome :
+    prepare_A ord g = if runsim_accepts (plan_of ord g) then Planned (plan_of ord g) else RejectedCycle.
   Proof.
     destruct (plan_facts) as (_ & _ & _ & F4 & F5 & F6). unfold prepare_A.
     assert (Htfs : existsb (tfs_needed g cl) (plan_of ord g) = false).
@@ -288,6 +326,24 @@ Section Plan.
     { unfold validate_A. apply forallb_forall. intros s Hs. apply subset_incl. intros a Ha. exact (F5 s a Hs Ha). }
     rewrite Hv. reflexivity.
   Qed.
+
+  (* accepted exactly when the (unvalidated) plan is well formed for some order *)
+  Theorem prepare_accepts_iff :
+    prepare_A ord g = Planned (plan_of ord g) <-> exists order, wf_plan order (plan_of ord g) = true.
+  Proof.
+    rewrite prepare_outcome, <- (runsim_accepts_iff _ plan_struct plan_no_self_req).
+    destruct (runsim_accepts (plan_of ord g)); split; intros H; try reflexivity; discriminate.
+  Qed.
+
+  Theorem prepare_planned_inv : forall p, prepare_A ord g = Planned p ->
+    p = plan_of ord g /\ wf_plan (sim_order p) p = true.
+  Proof.
+    intros p H. rewrite prepare_outcome in H. destruct (runsim_accepts (plan_of ord g)) eqn:E; [|discriminate].
+    injection H as H. subst p. split; [reflexivity|]. exact (sim_sound _ E plan_struct plan_no_self_req).
+  Qed.
+
+  Theorem prepare_total : prepare_A ord g = Planned (plan_of ord g) \/ prepare_A ord g = RejectedCycle.
+  Proof. rewrite prepare_outcome. destruct (runsim_accepts (plan_of ord g)); [left | right]; reflexivity. Qed.
 
   (* ---------- the wait-for relation is acyclic when the groups form a DAG ---------- *)
   Section Dag.
@@ -372,9 +428,20 @@ Section Plan.
 End Plan.
 
 (* ---------- statements with the propositional hypotheses of Spec/PlannerASpec.v ---------- *)
-Theorem plan_wf : forall ord g, ord_ok ord -> graph_ok g -> strict g -> group_dag g ->
-  exists order, wf_plan order (plan_of ord g) = true.
-Proof. intros ord g Hord Hok Hstrict [grk Hdag]. exact (plan_wf_rank ord g Hord Hok Hstrict grk Hdag). Qed.
+(* every accepted plan is well formed; the order is the start order of the validation's simulation *)
+Theorem plan_wf : forall ord g p, ord_ok ord -> graph_ok g -> strict g -> prepare_A ord g = Planned p ->
+  exists order, wf_plan order p = true.
+Proof.
+  intros ord g p Hord Hok Hstrict H. exists (sim_order p). exact (proj2 (prepare_planned_inv ord g Hord Hok Hstrict p H)).
+Qed.
+
+(* when the feature groups form a DAG the request is accepted *)
+Theorem prepare_accepts_dag : forall ord g, ord_ok ord -> graph_ok g -> strict g -> group_dag g ->
+  prepare_A ord g = Planned (plan_of ord g).
+Proof.
+  intros ord g Hord Hok Hstrict [grk Hdag]. apply (prepare_accepts_iff ord g Hord Hok Hstrict).
+  exact (plan_wf_rank ord g Hord Hok Hstrict grk Hdag).
+Qed.
 
 (* ---------- req_covers ---------- *)
 Definition adj_of (g : fgraph) : list (nat * list nat) := map (fun n => (fid n, fins n)) g.
@@ -464,7 +531,8 @@ Proof.
   exact (before_lt order _ _ H).
 Qed.
 
-(* ---------- refutation of plan_wf without group_dag: a strict-fragment request whose plan deadlocks ---------- *)
+(* ---------- why the run-simulation validation is needed: the UNVALIDATED plan of a strict-fragment request can be
+   cyclic (it deadlocked before /repo 12fe10c); the validation now rejects it ---------- *)
 (* r <- (root);  group 1 = {a1 <- r, a2 <- b2};  group 2 = {b1 <- a1, b2 <- r};  requested a2, b1 *)
 Definition g_cross : fgraph :=
   [ {| fid := 11; fgrp := 1; fins := [6];  freq := true;  fcfw := 1 |};     (* a2 requested *)
@@ -478,7 +546,7 @@ Proof. split; [apply graph_okb_sound | apply strictb_sound]; vm_compute; reflexi
 
 Theorem plan_wf_refuted :
   graph_ok g_cross /\ strict g_cross /\ group_dagb g_cross = false /\
-  prepare_A ord_id g_cross = Planned (plan_of ord_id g_cross) /\
+  prepare_A ord_id g_cross = RejectedCycle /\
   (forall order, wf_plan order (plan_of ord_id g_cross) = false) /\
   (forall n, n <= 200 -> loop_head (plan_of ord_id g_cross)
                            (run false true (fun _ => false) (plan_of ord_id g_cross) (repeat EScan n)) = Looping).
